@@ -108,4 +108,21 @@ InvConf ==
             ELSE LET d == Diff(m, e.out) IN
                  IF d = "" THEN PrintT(<<"CONF", "agree", e.hid, e.step>>)
                  ELSE PrintT(<<"CONF", "drift", e.hid, e.step, d, m.code, e.out.code>>)
+\* debugging aid: on drift print both traces compactly
+Short(s) == IF s.k = "par" THEN <<"par", s.lsz, s.rsz>>
+            ELSE IF s.k = "sent" THEN <<"sent", s.by>>
+            ELSE IF s.k = "exec" THEN <<"exec", s.vt, s.p, s.f, s.g>>
+            ELSE IF s.k = "failed" THEN <<"failed", s.p, s.f>>
+            ELSE IF s.k = "ap" THEN <<"ap", s.gs>>
+            ELSE IF s.k = "fold" THEN <<"fold", [i \in 1..Len(s.lore) |-> <<s.lore[i].vp, s.lore[i].d>>]>>
+            ELSE IF s.k = "cexec" THEN <<"cexec", Len(s.vals)>>
+            ELSE <<s.k>>
+InvDrift ==
+    IsRun =>
+        LET e == Last  m == ModelOutcome(pre, e) IN
+        (~m.unsup /\ e.out.died = "" /\ Diff(m, e.out) = "trace") =>
+            LET a == StripTrace(m.data.trace)  b == StripTrace(e.out.data.trace)
+                bad == {i \in 1..Len(a) : i <= Len(b) /\ a[i] # b[i]} IN
+            PrintT(<<"DRIFTAT", e.hid, e.step, {<<i, a[i], "IMPL", b[i]>> : i \in bad}>>) /\
+            PrintT(<<"DRIFT", e.hid, e.step, [i \in 1..Len(m.data.trace) |-> Short(m.data.trace[i])], "IMPL", [i \in 1..Len(e.out.data.trace) |-> Short(e.out.data.trace[i])]>>)
 =============================================================================
